@@ -235,6 +235,10 @@ impl ContextCallback for Callback {
         }
     }
     async fn on_error(&self, ctx: &mut Context, _error: Error) {
+        // never send a failure reply after the success reply
+        if ctx.was_connected() {
+            return;
+        }
         let version = self.version;
         let cmd = SOCKS_REPLY_GENERAL_FAILURE;
         let target = "0.0.0.0:0".parse().unwrap();
